@@ -5,9 +5,11 @@ import verif
 
 ALL_INV = ["T_SnapshotData", "T_SnapshotIndexed", "T_IndexSound", "KeyAlive", "ContentAddressed", "NonceFresh",
            "NoLeak", "PackUnmixed", "Readable", "ReadOnlyRespected", "NoLockRespected", "ForgetMatchesReport", "NoWaste",
-           "PruneStatsOK", "ReaderOrder", "PackNotOverfilled", "SessionComplete", "NoDuplicateUpload"]
+           "PruneStatsOK", "ReaderOrder", "PackNotOverfilled", "SessionComplete", "NoDuplicateUpload",
+           "RepairIndexExact"]
 ALL_RULES = ["R_PackBeforeIndex", "R_IndexBeforeSnapshot", "R_IndexGoneBeforePackDelete",
-             "R_IndexDeleteKeepsNeeded", "R_LastKeyKept", "R_ConfigWriteOnce", "R_SnapshotNotLost", "R_OriginalKept"]
+             "R_IndexDeleteKeepsNeeded", "R_LastKeyKept", "R_ConfigWriteOnce", "R_SnapshotNotLost", "R_OriginalKept",
+             "R_RepairKeepsReadable"]
 
 
 def write_cfg(invs, rules):
